@@ -1,5 +1,8 @@
 """C19 - Structured (qsub) compilation preserves meaning and resource counts."""
+from translate import qsub_inverse
 from vlib import fingerprint
+from vlib.common import REPO
+import os
 
 
 def run(ctx):
@@ -9,9 +12,14 @@ def run(ctx):
         "evaluation with the stack allocator (HierarchicalReuseAllocator, Evaluator._call_sub, QURIPartsEvaluatorHooks qubit "
         "maps, expand._expand), memoising GateCount / AuxQubitCount evaluator hooks; tied to the code by vm_compute "
         "correspondence over random linked programs (corr_C19.py) and AST fingerprints",
-        "partial: compile/link front end (SubBuilder, resolvers, transpiler hooks), registers, the order of aux qubits of an "
-        "expanded sub (tuple(set())), and the Inverse / Controlled / MultiControlled "
-        "library constructions are decided by the reference-interpreter + numpy sweep (sweep_C19.py) only",
+        "translate/qsub_inverse.py (fail-closed AST reading of lib/std/inverse.py, the Op definitions of lib/std and the gate "
+        "mappings of eval/quriparts.py): structure of inverse_sub_resolver, table (constant primitive -> op its Inverse resolves "
+        "to), rotation angle factor; coq/model/QsubInverse.v / QsubPrim.v and coq/lib/LocalScaled.v (exact comparison of gate "
+        "lists whose 1/sqrt2 exponents differ); the resolver's output is compared with the model on random primitive "
+        "sub-routines (corr_C19_inverse.py); documented matrices of the constant gates, RX/RY/RZ = exp(-i theta P / 2)",
+        "partial: compile/link front end (SubBuilder, transpiler hooks), registers, the order of aux qubits of an "
+        "expanded sub (tuple(set())), the resolvers of Controlled / MultiControlled (their decompositions; five are known "
+        "findings) are decided by the reference-interpreter + numpy sweep (sweep_C19.py) only",
     ]
     fingerprint.check(ctx, "packages/qsub/quri_parts/qsub/allocate.py",
                       ["HierarchicalReuseAllocator.allocate", "HierarchicalReuseAllocator.allocate_map",
@@ -27,6 +35,8 @@ def run(ctx):
     fingerprint.check(ctx, "packages/qsub/quri_parts/qsub/eval/qubitcount.py",
                       ["AuxQubitCountEvaluatorHooks._merge_cache", "AuxQubitCountEvaluatorHooks.enter_sub",
                        "AuxQubitCountEvaluatorHooks.exit_sub"])
-    ctx.coq([], ["C19.v"])
+    ctx.translate("qsub_inverse", qsub_inverse.run, REPO, os.path.join(ctx.work, "gen"), os.path.join(ctx.work, "qsubinv.json"))
+    ctx.coq(["qsubinv.v"], ["C19.v", "C19_inv.v"])
     ctx.harness("corr_C19.py", kind="corr")
+    ctx.harness("corr_C19_inverse.py", kind="corr")
     ctx.harness("sweep_C19.py", timeout=2400)
